@@ -197,7 +197,7 @@ def run_mode(mode, lines, args=(), timeout=3600, env=None, cwd=None):
     return p.returncode, outs, p.stderr.decode("utf8", "replace"), last
 
 
-def expand_many(cases, shards=None, timeout=3600, env=None):
+def expand_many(cases, shards=None, timeout=3600, env=None, args=()):
     """cases: list of (id, derive, item_source).  Returns {id: outcome dict}.
     Sharded over processes; a shard that dies is re-run case by case to attribute the crash."""
     from concurrent.futures import ThreadPoolExecutor
@@ -208,14 +208,14 @@ def expand_many(cases, shards=None, timeout=3600, env=None):
 
     def work(part):
         lines = ["%s\t%s\t%s" % (cid, d, hexs(item)) for cid, d, item in part]
-        rc, outs, err, last = run_mode("expand", lines, timeout=timeout, env=env)
+        rc, outs, err, last = run_mode("expand", lines, args=list(args), timeout=timeout, env=env)
         res = {o["id"]: o for o in outs}
         if rc != 0 or len(res) != len(part):
             # attribute the death: everything not answered is re-run alone
             for cid, d, item in part:
                 if str(cid) in res:
                     continue
-                rc1, outs1, err1, _ = run_mode("expand", ["%s\t%s\t%s" % (cid, d, hexs(item))], timeout=120, env=env)
+                rc1, outs1, err1, _ = run_mode("expand", ["%s\t%s\t%s" % (cid, d, hexs(item))], args=list(args), timeout=120, env=env)
                 if outs1:
                     res[outs1[0]["id"]] = outs1[0]
                 else:
